@@ -174,7 +174,7 @@ def run_cli(src, mode):
     try:
         args = []
         entry = [pool.PY, os.path.join(driver.REPO, "compile.py")] if mode & 2 else [pool.PY, "-m", "dsl_compiler"]
-        if mode & 1:
+        if mode & 3:   # compile.py only takes a file
             p = os.path.join(tmp, "prog.facto")
             with open(p, "w") as f:
                 f.write(src)
